@@ -695,6 +695,18 @@ func (vc *FuncVC) moveRegions(st *State, elem types.Type, copies []regionCopy, l
 		st.g.note("append/copy of elements with array/slice-typed fields: element heaps havocked")
 	}
 	sz := vc.g.P.sizeof(elem)
+	if sz > 1 {
+		// element addresses are wrapped (ea<sz> ptr idx); make the source element's address term available
+		// whenever the destination element's term occurs (and vice versa), so that quantified facts about the
+		// source elements (triggered on ea<sz> src k) can fire for goals about the copy. Instances of the ea axiom.
+		for _, rc := range copies {
+			ea := st.g.elemAddr("p", "k", sz)
+			_ = ea
+			n := sym(fmt.Sprintf("ea%d", sz))
+			st.assume(fmt.Sprintf("(forall ((k Int)) (! (= (%s %s k) (+ %s (* %d k))) :pattern ((%s %s k))))", n, rc.src, rc.src, sz, n, rc.dst))
+			st.assume(fmt.Sprintf("(forall ((k Int)) (! (= (%s %s k) (+ %s (* %d k))) :pattern ((%s %s k))))", n, rc.dst, rc.dst, sz, n, rc.src))
+		}
+	}
 	for _, c := range cells {
 		h := st.cur(c.heap, c.sort)
 		nh := st.g.heapConst(c.heap, c.sort)
